@@ -87,6 +87,7 @@ var props = map[string]propInfo{
 	"C31": {Engine: "bgp", Quick: 12000, Thorough: 400000, BatchSize: 150},
 	"C32": {Engine: "bgp", Quick: 8000, Thorough: 250000, BatchSize: 100},
 	"C33": {Engine: "bgp", Quick: 12000, Thorough: 400000, BatchSize: 150},
+	"C36": {Engine: "cfg", Quick: 3000, Thorough: 90000, BatchSize: 50},
 }
 
 type violation struct {
